@@ -625,6 +625,37 @@ def strip_callee(c):
     return re.sub(r"<[^<>]*>", "", c).split("::")[-1]
 
 
+def r03_17(run, model):
+    run.rule("R03.17", "no type parameter survives monomorphisation because it could never be inferred: goml has no explicit instantiation "
+                       "syntax, so where a generic function or method enters the environment (define_function, define_inherent_impl) each "
+                       "declared type parameter is required to occur in the parameter or result types, and a diagnostic is pushed otherwise")
+    TOP = "crates/compiler/src/typer/toplevel.rs"
+    # predicates `does this Ty mention the parameter called p`: a match on Ty with an arm TParam { name } => name == p
+    preds = set()
+    for g in model.fns():
+        if not g.file.startswith("crates/compiler/src/typer/") or g.body is None:
+            continue
+        for m in S.find(g.body, "Match"):
+            for arm in m["arms"]:
+                pt = S.norm_ws(run.facts.text(g.file, arm["pat"]["sp"]))
+                bt = S.norm_ws(run.facts.text(g.file, arm["body"]["sp"]))
+                if "TParam{name}" in pt and re.fullmatch(r"name==\*?\w+|\*?\w+==name", bt):
+                    preds.add(g.name)
+    checkers = set()
+    for g in model.fns(TOP):
+        if g.body is None:
+            continue
+        if preds and any(True for _ in S.calls(g.body, *preds)) and any(c["k"] == "MethodCall" and c["method"] == "push" for c in S.walk(g.body)):
+            checkers.add(g.name)
+    for name in ("define_function", "define_inherent_impl"):
+        f = model.fn(name, TOP)
+        ok = name in checkers or (bool(checkers) and any(True for _ in S.calls(f.body, *checkers)))
+        run.ob("R03.17", f"{name}|every declared type parameter must occur in the signature", ok, site(TOP, f.node["sp"]),
+               f"type-mention predicates: {sorted(preds) or 'none'}; functions reporting an undetermined parameter: {sorted(checkers) or 'none'}",
+               witness="fn f[T](x: int32) -> int32 { let v: Vec[T] = vec_new(); vec_len(v) + x } is accepted; Mono keeps `Vec[T]` and the Go "
+                       "output declares `var v []T` with T undefined")
+
+
 def run(run, model):
     run.try_rule(r03_1, model)
     run.try_rule(r03_2, model)
@@ -640,6 +671,7 @@ def run(run, model):
     run.try_rule(r03_14, model)
     run.try_rule(r03_15, model)
     run.try_rule(r03_16, model)
+    run.try_rule(r03_17, model)
     from rules import c17
     run.try_rule(c17.r17_9, model)
     run.try_rule(c07.r07_4, model)
